@@ -477,6 +477,12 @@ def clone_val(v):
     return v
 
 
+@ext(r'^<.* as (?:Fn|FnMut|FnOnce)<.*>>::(call|call_mut|call_once)$')
+def fn_trait_call(eng, callee, a, m, fc):
+    args = a[1]
+    return eng.call_value(a[0], list(args) if isinstance(args, (list, tuple)) else [args])
+
+
 @ext(r'<.* as Default>::default$')
 def default_any(eng, callee, a, m, fc):
     if 'Vec<' in callee:
